@@ -23,6 +23,7 @@ import CtyModel.Lemmas.d06Gocty
 import CtyModel.Lemmas.d06WalkSets
 import CtyModel.Lemmas.d06Stdlib
 import CtyModel.Lemmas.d06WFStrict
+import CtyModel.Lemmas.ConsFnsTie
 import Lean
 namespace CtyModel
 namespace C06
@@ -649,6 +650,149 @@ example : (match setValH [⟨.string, .s "a"⟩, ⟨.string, .marked ["m"] (.s "
 example : (match Refine.refine ⟨.list .string, .marked ["m"] (.unk .unref)⟩ [.notNull, .collectionLength 2] with
     | .ok r => r.WF (fun _ => true) && r.isMarked && r.isKnown | _ => false) = true := by decide
 example : sample.isMarked = false ∧ sample.isKnown = true ∧ sample.isNull = false := by decide
+
+/-! ## tr06 — the constructors as REGENERATED from the source
+
+`Generated/ConsFns.lean` is rewritten from cty/value_init.go, cty/null.go, cty/unknown.go by `extract/translate_cons.go` on
+every check; `Lemmas/ConsFnsTie.lean` proves every generated constructor equal to the hand-written one of the theorems
+above (for all arguments; for the constructors over a Go map, for every order `mapOrder` in which `range` may visit the
+entries).  The theorems below restate the constructor clauses about the generated definitions, so that an edit of the Go
+text inside the translated functions either leaves them provable or breaks this file's build. -/
+
+section generated
+open Generated.ConsFns ConsTie
+
+/-- `StringVal` as translated: the stored string is the normalised one -/
+theorem wf_stringVal_generated (norm : String → String) (hn : ∀ s, nfc (norm s) = true) (s : String) :
+    ∃ r, StringVal norm s = .ok r ∧ r.WF nfc = true :=
+  ⟨_, StringVal_eq norm s, wf_stringVal norm hn s⟩
+
+/-- `NullVal`, `UnknownVal` as translated -/
+theorem wf_nullVal_generated {t : Ty} (h : t.ok nfc = true) : ∃ r, NullVal t = .ok r ∧ r.WF nfc = true :=
+  ⟨_, NullVal_eq t, wf_nullVal h⟩
+theorem wf_unknownVal_generated {t : Ty} (h : t.ok nfc = true) : ∃ r, UnknownVal t = .ok r ∧ r.WF nfc = true :=
+  ⟨_, UnknownVal_eq t, wf_unknownVal h⟩
+
+/-- `ListValEmpty`, `MapValEmpty`, `SetValEmpty` as translated (the set one through the translated `set.NewSet`) -/
+theorem wf_emptyCollections_generated {e : Ty} (h : e.ok nfc = true) (hashOf : Ty → Payload → Int) :
+    (∃ r, ListValEmpty e = .ok r ∧ r.WF nfc = true) ∧ (∃ r, MapValEmpty e = .ok r ∧ r.WF nfc = true) ∧
+    (∃ r, SetValEmpty hashOf e = .ok r ∧ r.WF nfc = true) :=
+  ⟨⟨_, ListValEmpty_eq e, wf_listValEmpty h⟩, ⟨_, MapValEmpty_eq e, wf_mapValEmpty h⟩,
+    ⟨_, SetValEmpty_eq hashOf e, wf_setValEmpty h⟩⟩
+
+/-- `ListVal` as translated: whenever it returns, given well-formed members, the list is well-formed -/
+theorem wf_listVal_generated {ws : List Value} {r : Value} (h : ListVal ws = .ok r)
+    (hws : ∀ w ∈ ws, w.WF nfc = true) : r.WF nfc = true :=
+  wf_listVal (ok_of_cls (ListVal_eq ws) h) hws
+
+/-- … and it panics exactly on the documented misuse: the empty slice, or element types that are not consistent
+(`CanListVal`, as translated, is the test for the latter) -/
+theorem listVal_panics_iff_generated (ws : List Value) :
+    (ListVal ws).isPanic = true ↔ (ws = [] ∨ CanListVal ws = .ok false) := by
+  rw [isPanic_of_cls (ListVal_eq ws), isPanic_listVal, CanListVal_eq]
+  cases ws <;> simp
+
+/-- `TupleVal` as translated never panics, and the tuple is well-formed given well-formed members -/
+theorem wf_tupleVal_generated {ws : List Value} (hws : ∀ w ∈ ws, w.WF nfc = true) :
+    ∃ r, TupleVal ws = .ok r ∧ r.WF nfc = true :=
+  ⟨_, TupleVal_eq ws, wf_tupleVal hws⟩
+
+/-- `MapVal` as translated, on RAW keys, for EVERY order in which `range` visits the map: whenever it returns, given
+well-formed members, the map is well-formed — its keys NFC and distinct -/
+theorem wf_mapVal_generated (ord : List (String × Value) → List (String × Value)) (ho : ConsOrder ord)
+    (norm : String → String) (hn : ∀ s, nfc (norm s) = true) {vals : List (String × Value)} {r : Value}
+    (h : MapVal ord norm vals = .ok r) (hws : ∀ kv ∈ vals, kv.2.WF nfc = true) : r.WF nfc = true := by
+  refine wf_mapVal_normalizing norm hn (ok_of_cls (MapVal_eq ord ho norm vals) h) ?_
+  intro w hw
+  simp only [valsOf, List.mem_map] at hw
+  obtain ⟨kv, hkv, rfl⟩ := hw
+  exact hws kv ((ho vals).mem_iff.mp hkv)
+
+/-- … and it panics exactly on the empty map or inconsistent element types -/
+theorem mapVal_panics_iff_generated (ord : List (String × Value) → List (String × Value)) (ho : ConsOrder ord)
+    (norm : String → String) (vals : List (String × Value)) :
+    (MapVal ord norm vals).isPanic = true ↔ (vals = [] ∨ CanMapVal ord vals = .ok false) := by
+  rw [isPanic_of_cls (MapVal_eq ord ho norm vals), isPanic_mapValN, CanMapVal_eq]
+  have hl : (ord vals).length = vals.length := (ho vals).length_eq
+  have : (valsOf (ord vals)).isEmpty = vals.isEmpty := by
+    cases h1 : ord vals <;> cases h2 : vals <;> simp_all [valsOf]
+  rw [this]
+  cases vals <;> simp
+
+/-- `ObjectVal` as translated, on RAW attribute names, for EVERY visiting order (no hypothesis on `mapOrder` at all):
+never panics; given well-formed attribute values the object is well-formed — names NFC, the value's attribute set
+equal to the type's -/
+theorem wf_objectVal_generated (ord : List (String × Value) → List (String × Value)) (norm : String → String)
+    (hn : ∀ s, nfc (norm s) = true) (hidem : ∀ s, norm (norm s) = norm s) {attrs : List (String × Value)}
+    (hws : ∀ kv ∈ ord attrs, kv.2.WF nfc = true) : ∃ r, ObjectVal ord norm attrs = .ok r ∧ r.WF nfc = true := by
+  refine ⟨_, ObjectVal_eq ord norm attrs, wf_objectVal_normalizing norm hn hidem ?_⟩
+  intro w hw
+  simp only [valsOf, List.mem_map] at hw
+  obtain ⟨kv, hkv, rfl⟩ := hw
+  exact hws kv hkv
+
+/-- Go's map order is immaterial to `ObjectVal` when no two attribute names collide after normalisation … -/
+theorem objectVal_map_order_immaterial_generated (ord ord' : List (String × Value) → List (String × Value))
+    (ho : ConsOrder ord) (ho' : ConsOrder ord') (norm : String → String) (attrs : List (String × Value))
+    (hd : NormDistinct norm attrs) : ObjectVal ord norm attrs = ObjectVal ord' norm attrs := by
+  rw [ObjectVal_order_immaterial ord ho norm attrs hd, ObjectVal_order_immaterial ord' ho' norm attrs hd]
+
+/-- Go's map order is immaterial to `MapVal` too — value, element type and the inconsistent-types panic — when no two
+keys collide after normalisation (element types that are representable types); `ObjectVal_order_counterexample` in
+`Lemmas/ConsFnsTie.lean` has the colliding-keys witness for `MapVal` as well -/
+theorem mapVal_map_order_immaterial_generated (ord ord' : List (String × Value) → List (String × Value))
+    (ho : ConsOrder ord) (ho' : ConsOrder ord') (norm : String → String) (vals : List (String × Value))
+    (hd : NormDistinct norm vals) (hw : ∀ kv ∈ vals, kv.2.ty.wf = true) :
+    ConsGo.cls (MapVal ord norm vals) = ConsGo.cls (MapVal ord' norm vals) :=
+  MapVal_order_immaterial ord ord' ho ho' norm vals hd hw
+
+/-- … the full statement (for all attribute maps) is FALSE of the code: kept as a `def`, with the witness (the
+recorded finding `constructor-key-normalization-collision`: two names with one normal form) -/
+def ObjectValOrderImmaterial : Prop :=
+  ∀ (ord ord' : List (String × Value) → List (String × Value)) (norm : String → String) (attrs : List (String × Value)),
+    ConsOrder ord → ConsOrder ord' → ObjectVal ord norm attrs = ObjectVal ord' norm attrs
+
+theorem objectVal_map_order_counterexample_generated : ¬ ObjectValOrderImmaterial := by
+  intro h
+  have h1 := h (fun m => m) (fun m => m.reverse) collideNorm collideAttrs consOrder_id consOrder_reverse
+  have h2 := ObjectVal_order_counterexample.1
+  rw [h1] at h2
+  revert h2
+  decide
+
+/-- `SetVal` as translated (with the translated `set.NewSetFromSlice`; `hashOf` = the implementation's member hash):
+whenever it returns, given well-formed members on which the set rules are lawful and `Equals` evaluates, the set is
+well-formed — members deeply unmarked, their marks hoisted to the one outer layer, no two equivalent -/
+theorem wf_setVal_generated (hashOf : Ty → Payload → Int) {ws : List Value} {r : Value}
+    (h : SetVal hashOf ws = .ok r) (hws : ∀ w ∈ ws, w.WF nfc = true)
+    (hp : ∀ et, Gocty.elemTypeOf .dyn (ws.map setMember) = .ok et →
+      pairsOk et (Gocty.payloads (ws.map setMember)) = true)
+    (hok : ∀ et, Gocty.elemTypeOf .dyn (ws.map setMember) = .ok et →
+      setRulesOk et ((Gocty.payloads (ws.map setMember)).zip ((Gocty.payloads (ws.map setMember)).map (hashOf et))) = true) :
+    r.WF nfc = true := by
+  have hm : ∀ w ∈ ws, MarksFaithful w := fun w hw => marksFaithful_of_WF (hws w hw)
+  have he := ok_of_cls (SetVal_eq hashOf ws hm hp) h
+  cases het : Gocty.elemTypeOf .dyn (ws.map setMember) with
+  | ok et =>
+    rw [het] at he
+    exact wf_setVal_partial he hws (fun et' h' => by rw [het] at h'; cases h'; exact hok et het)
+  | err c => rw [het] at he; simp [setValH, het] at he; split at he <;> cases he
+  | panic w => rw [het] at he; simp [setValH, het] at he; split at he <;> cases he
+  | unmodelled => rw [het] at he; simp [setValH, het] at he; split at he <;> cases he
+
+/-- `SetVal` as translated panics on the empty slice (the documented misuse) -/
+theorem setVal_empty_panics_generated (hashOf : Ty → Payload → Int) : (SetVal hashOf []).isPanic = true := rfl
+
+/-- non-vacuity: the generated constructors run on concrete arguments — a marked member is hoisted by `SetVal`, a
+decomposed key is normalised by `MapVal`, inconsistent element types panic -/
+example : (match SetVal (fun _ p => match p with | .s "a" => 1 | _ => 2)
+      [⟨.string, .s "a"⟩, ⟨.string, .marked ["m"] (.s "b")⟩, ⟨.string, .s "a"⟩] with
+    | .ok r => r.WF (fun _ => true) && r.isMarked && (lengthInt r.unmark == .ok 2) | _ => false) = true := by decide
+example : (match MapVal (fun m => m) normE [("k", ⟨.string, .s "1"⟩), ("é", ⟨.string, .s "2"⟩)] with
+    | .ok r => r.WF nfcE | _ => false) = true := by decide
+example : (ListVal [⟨.string, .s "a"⟩, ⟨.number, .null⟩]).isPanic = true ∧ (ListVal []).isPanic = true ∧
+    (ListVal [⟨.dyn, .null⟩, ⟨.string, .s "a"⟩]).isOk = true := by decide
+end generated
 
 end C06
 end CtyModel
